@@ -352,7 +352,7 @@ def _child(idx, timeout_ms, seed, conn):
         os._exit(0)
 
 
-def discharge(obs, timeout_ms=20000, procs=16, seed=0, ext_timeout_s=20, use_external=True):
+def discharge(obs, timeout_ms=20000, procs=16, seed=0, ext_timeout_s=20, use_external=True, retry=True):
     """Each obligation is solved in its own forked process, hard-killed at timeout + grace.
     -> list of result dicts aligned with obs."""
     global _OBS
@@ -405,4 +405,17 @@ def discharge(obs, timeout_ms=20000, procs=16, seed=0, ext_timeout_s=20, use_ext
                 if r in ('unsat', 'sat'):
                     results[idx]['result'] = r
                     results[idx]['backend'] = who
+    if retry:
+        # verdicts must not flip when the machine is busy: whatever is still `unknown` is run once more with
+        # three times the budget (few instances: on an unchanged tree there are none)
+        again = [i for i, r in enumerate(results) if obs[i].kind == 'ob' and r['result'] == 'unknown']
+        if 0 < len(again) <= 24:
+            sub = discharge([obs[i] for i in again], timeout_ms=timeout_ms * 3, procs=min(procs, 8), seed=seed + 7,
+                            ext_timeout_s=ext_timeout_s * 2, use_external=use_external, retry=False)
+            _OBS = obs
+            for i, r in zip(again, sub):
+                if r['result'] == 'unsat':
+                    r['backend'] = str(r['backend']) + '(retry)'
+                    r['time'] += results[i]['time']
+                    results[i] = r
     return results
